@@ -19,13 +19,20 @@ def execute_wiring(cfg, V):
     ids = [c[0] for c in comps]; nodes = sorted({x for c in comps for x in (c[1], c[2])})
     src_ids = [c[0] for c in comps if c[3] in ('Vdc', 'Idc')]
     K = 3
-    tin = np.array([0.0, 0.5, 1.0])
+    tin = np.array([0.0, 0.5, 1.0]) + cfg.get('tstart', 0.0)          # grids need not start at t = 0
+    tin0 = tin.copy()
+    asked = {}
     samples = {sid: [V.val(f'u[{sid}][{k}]', 'cany') for k in range(K)] for sid in src_ids}
     calls = []
     # input functions given in REVERSED dictionary order: the model must pick them up by name
     inputs = {}
     for sid in reversed(src_ids):
-        inputs[V.label(sid)] = (lambda s_: (lambda t: np.array(samples[s_], dtype=object if V.sym else complex)))(sid)
+        def mk(s_):
+            def fn(t):
+                asked.setdefault(s_, []).append(np.array(t, dtype=float, copy=True))
+                return np.array(samples[s_], dtype=object if V.sym else complex)
+            return fn
+        inputs[V.label(sid)] = mk(sid)
     nstate = sum(1 for c in comps if c[3] in ('C', 'L'))
     traj = [[V.val(f'x[{k}][{j}]', 'cany') for j in range(nstate)] for k in range(K)]
 
@@ -42,7 +49,13 @@ def execute_wiring(cfg, V):
     obs.append(Ob('model handed to the integrator is (A, B, I, 0)', 0 if (model.A is ssm.A or np.array_equal(model.A, ssm.A)) and (model.B is ssm.B or np.array_equal(model.B, ssm.B))
                   and model.C.shape == (n, n) and all((model.C[i, j] == (1 if i == j else 0)) for i in range(n) for j in range(n))
                   and model.D.shape == (n, m) and all(model.D[i, j] == 0 for i in range(n) for j in range(m)) else 1))
-    obs.append(Ob('time grid passed unchanged', 0 if t is tin or np.array_equal(np.asarray(t, dtype=float), tin) else 1))
+    def same_grid(x):
+        try: return np.array_equal(np.asarray(x, dtype=float), tin0)
+        except Exception: return False
+    obs.append(Ob('time grid passed unchanged', 0 if same_grid(t) else 1))
+    obs.append(Ob('the caller\'s time grid is not modified', 0 if np.array_equal(tin, tin0) else 1))
+    for sid in src_ids:
+        obs.append(Ob(f'waveform of {sid} is sampled at the instants of the grid', 0 if asked.get(sid) and all(same_grid(a) for a in asked[sid]) else 1))
     obs.append(Ob('zero initial state', 0 if np.shape(x0)[0] == n and all(v == 0 for v in np.asarray(x0).flat) else 1))
     sources = [str(s) for s in ssm.sources]
     ua = np.asarray(u, dtype=object)
@@ -65,13 +78,14 @@ def execute_wiring(cfg, V):
             obs.append(Ob(f'voltage {key} sample {k}', yv[k] - at(k, ssm.c_row_voltage(V.label(key)), ssm.d_row_voltage(V.label(key))), [1]))
             obs.append(Ob(f'current {key} sample {k}', yi[k] - at(k, ssm.c_row_current(V.label(key)), ssm.d_row_current(V.label(key))), [1]))
             obs.append(Ob(f'power {key} sample {k} = v*i', yp[k] - yv[k] * yi[k], [1]))
-    obs.append(Ob('reported time axis is the integrator\'s', 0 if np.array_equal(np.asarray(ts.t, dtype=float), tin) else 1))
+    obs.append(Ob('reported time axis is the grid', 0 if same_grid(ts.t) else 1))
     # continuous_state_space_solver: scipy receives exactly (A,B,C,D) and (sys, U, T); its result is returned untouched
     rec = {}
     class FakeSS:
         def __init__(s, *a): rec['ss_args'] = a
     def fake_lsim(sys_, U, T, *a, **k):
-        rec['lsim'] = (sys_, U, T, a, k); return ('T', 'Y', 'X')
+        rec['lsim'] = (sys_, U, T, a, k); return SENT
+    SENT = (object(), object(), object())
     saved = spssm.scipy
     spssm.scipy = types.SimpleNamespace(signal=types.SimpleNamespace(StateSpace=FakeSS, lsim=fake_lsim))
     try:
@@ -84,7 +98,7 @@ def execute_wiring(cfg, V):
     obs.append(Ob('scipy StateSpace built from exactly (A, B, C, D)', 0 if len(a) == 4 and a[0] is mdl.A and a[1] is mdl.B and a[2] is mdl.C and a[3] is mdl.D else 1))
     ls = rec.get('lsim')
     obs.append(Ob('lsim receives (system, U, T) unchanged with default (zero) initial state', 0 if ls and isinstance(ls[0], FakeSS) and ls[1] is Uin and ls[2] is Tin and not ls[3] and not ls[4] else 1))
-    obs.append(Ob('lsim result returned untouched', 0 if ret == ('T', 'Y', 'X') else 1))
+    obs.append(Ob('lsim result returned untouched', 0 if isinstance(ret, tuple) and len(ret) == 3 and all(x is y for x, y in zip(ret, SENT)) else 1))
     if cfg.get('twin'):
         obs = [Ob('twin', ua[0, 0] - samples[sources[-1]][1] + 1, [1])]
     return obs
@@ -96,7 +110,7 @@ def wiring_worker(cfg):
         res['skip'] = 'degenerate'; return res
     out = sx.run_symbolic(execute_wiring, cfg, cirlib.patched_modules(), rounds=0, seed=driver.seed_of(), max_paths=100)
     for v in out['violations']:
-        v['sig'].update({'what': 'wiring'}); v['pid'] = PID
+        v['sig'].update({'what': 'wiring'}); v['pid'] = cfg.get('pid_', PID)
     res.update({k: out[k] for k in ('paths', 'obligations', 'discharged', 'queries', 'violations', 'inconclusive', 'out_of_bound')})
     res['solver_s'] = out['solver_s']
     if cfg.get('twin'):
@@ -108,30 +122,34 @@ def wiring_worker(cfg):
     return res
 
 
-def replay(v):
+def replay(v, pid=None):
     driver.assert_repo_import()
     cfg = dict(v['cfg']); cfg['components'] = [tuple(x) for x in cfg['components']]
     fn = execute_wiring if v['sig'].get('what') == 'wiring' else C10.execute
     rep = sx.run_concrete(fn, cfg, sx.inputs_from_json(v.get('inputs', {})), v.get('labels') or {})
     print(json.dumps({'cfg': v['cfg'], 'inputs': v.get('inputs'), 'result': rep}, indent=1, default=str))
     if rep['bad']:
-        print(f'REPRODUCED property={PID}'); return 1
+        print(f'REPRODUCED property={pid or PID}'); return 1
     print('not reproduced'); return 0
 
 
-def main(tier):
+def wiring_extra(tier, pid, n_quick=10, n_thorough=120):
     def extra(rep):
         import random
         rng = random.Random(driver.seed_of())
         fam = [c for c in C10.configs('C12', tier, driver.seed_of()) if not c.get('twin') and not c.get('symlabels')]
         two = [c for c in fam if sum(1 for x in c['components'] if x[3] in ('Vdc', 'Idc')) >= 2] or fam
-        pick = rng.sample(fam, min(len(fam), 10 if tier == 'quick' else 120)) + two[:6 if tier == 'quick' else 60]
-        cfgs = [dict(c) for c in pick] + [dict(two[0], twin=True)]
+        pick = rng.sample(fam, min(len(fam), n_quick if tier == 'quick' else n_thorough)) + two[:6 if tier == 'quick' else 60]
+        cfgs = [dict(c, tstart=(0.0 if i % 2 else 0.25), pid_=pid) for i, c in enumerate(pick)] + [dict(two[0], twin=True)]
         with driver.FnTrace() as ft:
             driver.guarded(wiring_worker)(dict(pick[0]))
         rep.functions |= ft.seen
         driver.run_pool(driver.guarded(wiring_worker), cfgs, rep, chunksize=1)
-    return C10.main_for('C12', tier, extra_workers=extra)
+    return extra
+
+
+def main(tier):
+    return C10.main_for('C12', tier, extra_workers=wiring_extra(tier, 'C12'))
 
 
 def configs(tier, seed):
